@@ -765,8 +765,14 @@ class SymList:
     def length(self):
         return Rv(self.len)
 
+    def _index(self, i):
+        # Python's negative indices count from the end (concrete ones only: a symbolic index is taken as it is)
+        if isinstance(i, int) and not isinstance(i, bool) and i < 0:
+            return z3.simplify(self.len + i)
+        return _z(i)
+
     def item(self, i):
-        i = _z(i)
+        i = self._index(i)
         if not ctx().decide(z3.And(i >= 0, i < self.len), "index in range"):
             raise SymIndexError("list index out of range")
         return Rv(z3.Select(self.arr, i))
@@ -774,7 +780,7 @@ class SymList:
     __getitem__ = item
 
     def __setitem__(self, i, v):
-        i = _z(i)
+        i = self._index(i)
         if not ctx().decide(z3.And(i >= 0, i < self.len), "index in range"):
             raise SymIndexError("list assignment index out of range")
         self.arr = z3.Store(self.arr, i, _to_real(_z(v)))
